@@ -1,7 +1,9 @@
 # C07 registry entry: see lib/registry.py for the field meanings
 PROP = {'rule': 'rapid-generated cases. history: rapid state machine over one nodeDeviceCache (inventory GPU 0-8 / RDMA 0-4 / FPGA 0-4, '
          'unhealthy and zero-resource devices, sparse minors, optional topology; actions allocate through AutopilotAllocator + commit '
-         '(Reserve-style or pod informer), duplicate event (4 kinds), pod update with changed allocation, release (4 ways), release '
+         '(Reserve-style or pod informer), duplicate event (4 kinds), pod update with changed allocation, release (4 ways), events for '
+         'an already completed pod (completed->completed update unchanged / labels+status / condition, re-list add, add of a pod first '
+         'seen terminated then updated; the pod holds nothing from its first terminal event on), release '
          'again, inventory refresh (same/add/recover/grow and, in half of the cases, remove/unhealthy/reduce/gpu-memory change/Device CR '
          'deleted)); non-trivial = a pod received a duplicate event and was later released, or an inventory refresh happened between a '
          "pod's allocation and its release. allocate: one (inventory, constructed usage, request) triple; non-trivial = some device is "
